@@ -173,6 +173,57 @@ func TestVerifC12(t *testing.T) {
 		if leak {
 			rep.Violation("C12/descriptor-contains-secret", gr.name+" group: the replication descriptor carries the group secret", gr.name)
 		}
+		// the same group as it may be held after an invitation that came with its optional public fields filled in
+		// (signing public key, link key, link-key signature): whatever is already there, the descriptor never
+		// carries the secret or its signature, and names the same group
+		{
+			var shapes []*protocoltypes.Group
+			with := func(f func(g *protocoltypes.Group)) {
+				g := proto.Clone(gr.g).(*protocoltypes.Group)
+				f(g)
+				shapes = append(shapes, g)
+			}
+			lk := desc.LinkKey
+			for _, signPub := range [][]byte{nil, desc.SignPub, bytes.Repeat([]byte{7}, 32)} {
+				for _, linkKey := range [][]byte{nil, lk, bytes.Repeat([]byte{9}, 32), bytes.Repeat([]byte{9}, 31)} {
+					for _, linkSig := range [][]byte{nil, bytes.Repeat([]byte{5}, 64)} {
+						signPub, linkKey, linkSig := signPub, linkKey, linkSig
+						with(func(g *protocoltypes.Group) { g.SignPub, g.LinkKey, g.LinkKeySig = signPub, linkKey, linkSig })
+					}
+				}
+			}
+			for _, sg := range shapes {
+				var d2 *protocoltypes.Group
+				var ferr error
+				func() {
+					defer func() {
+						if r := recover(); r != nil {
+							ferr = fmt.Errorf("PANIC %v", r)
+							rep.Violation("C12/descriptor-panics", fmt.Sprintf("%s group with sign_pub=%d link_key=%d link_key_sig=%d bytes: %v", gr.name, len(sg.SignPub), len(sg.LinkKey), len(sg.LinkKeySig), r), gr.name)
+						}
+					}()
+					d2, ferr = FilterGroupForReplication(sg)
+				}()
+				rep.AddTransitions(1)
+				if ferr != nil {
+					rep.Eval(fmt.Sprintf("descriptor-shape/%s/error", gr.name))
+					continue
+				}
+				raw2, _ := proto.Marshal(d2)
+				leak2 := len(d2.Secret) != 0 || len(d2.SecretSig) != 0 || bytes.Contains(raw2, gr.g.Secret)
+				rep.Eval(fmt.Sprintf("descriptor-shape/%s/sign-pub=%d/link-key=%d/contains-secret=%v", gr.name, len(sg.SignPub), len(sg.LinkKey), leak2))
+				if leak2 {
+					rep.Violation("C12/descriptor-contains-secret", fmt.Sprintf("%s group held with sign_pub=%d link_key=%d link_key_sig=%d bytes: the replication descriptor carries the group secret", gr.name, len(sg.SignPub), len(sg.LinkKey), len(sg.LinkKeySig)), gr.name)
+				}
+				if !bytes.Equal(d2.PublicKey, gr.g.PublicKey) {
+					rep.Violation("C12/descriptor-names-another-group", gr.name, gr.name)
+				}
+			}
+			// a descriptor filtered again stays a descriptor
+			if d3, err := FilterGroupForReplication(desc); err == nil && (len(d3.Secret) != 0 || len(d3.SecretSig) != 0) {
+				rep.Violation("C12/descriptor-contains-secret", gr.name+": descriptor of a descriptor", gr.name)
+			}
+		}
 		// produce a session: metadata events and messages in the group, by a real member
 		gc := d.open(gr.g)
 		if gr.name != "account" {
